@@ -67,7 +67,8 @@ def _case(draw, thorough):
                     edits.append(["new_sample", draw(st.integers(0, 40))])
                 else:
                     edits.append(["add_lmi_t", draw(st.integers(0, 5)), draw(st.booleans())])
-        opts = draw(gen.solve_options(solvers=("CLARABEL", "CLARABEL", "CLARABEL", "SCS"), allow_drh=True))
+        opts = draw(gen.solve_options(wrappers=("cvxpy", "cvxpy", "cvxpy", "mosek"),
+                                      solvers=("CLARABEL", "CLARABEL", "CLARABEL", "SCS"), allow_drh=True))
         evals = draw(st.lists(st.tuples(st.sampled_from(["derP", "derE", "cons", "lmi"]), st.integers(0, 60),
                                         st.integers(0, 60), st.sampled_from([1, -1, 2, 0.5])), max_size=2))
         rounds.append({"edits": edits, "opts": opts, "new_held": [list(e) for e in evals]})
@@ -210,6 +211,10 @@ def check_case(case, ctx):
         for m in ob.sent_lmis:
             ever_sent[id(m)] = m
         k = oracles.TOL[sc]
+        if ob.result is None and opts.get("wrapper") == "mosek" and ob.status != "optimal":
+            ctx.label("round:mosek-standin-inconclusive")
+            out["inconclusive"] = True
+            continue
         if ob.result is None:
             ctx.label("round:none")
             # nothing evaluates to a number of an earlier solve
